@@ -112,6 +112,18 @@ var symMap map[int]string = map[int]string{
 	scanner.RawString: "(string)",
 }
 
+// endsStatement reports whether a newline after t terminates the statement: t is an identifier, a
+// literal, one of the keywords break, continue, return, or one of ++ -- ) ] }
+func endsStatement(t *token) bool {
+	switch t.Symbol {
+	case "(name)", "(int)", "(float)", "(char)", "(string)", "break", "continue", "return", "++", "--", ")", "]", "}",
+		"true", "false", "nil", "iota", "error", "any", "float64", "int", "int32", "byte", "uint8", "rune", "uint32", "uint",
+		"int8", "int16", "int64", "uint16", "uint64", "bool", "string":
+		return true
+	}
+	return false
+}
+
 // tokenize a string into a list of Tokens
 func tokenize(filename string, in string) ([]*token, error) {
 	var res []*token
@@ -125,6 +137,10 @@ func tokenize(filename string, in string) ([]*token, error) {
 	const symChars = "`~!.#$%^&*()-=+[{]}\\|;:,<.>/?"
 	s.Filename = filename
 	for ch := s.Scan(); err == nil && ch != scanner.EOF; ch = s.Scan() {
+		// automatic semicolon insertion (Go specification, "Semicolons" rule 1)
+		if n := len(res); n > 0 && s.Position.Line > res[n-1].Pos.Line && endsStatement(res[n-1]) {
+			res = append(res, &token{Pos: res[n-1].Pos, Symbol: ";", Text: ";"})
+		}
 		if strings.ContainsRune(symChars, ch) {
 			sym := string(ch)
 			if strings.ContainsRune(symChars, ch) {
